@@ -35,7 +35,7 @@ STACKS = [
     ("hashpooled", [("mc1", 11211)]),
     ("hash", [("mc1", 11211), ("mc2", 11211)]),
 ]
-CFGS = [{}, {"default_noreply": False}]
+CFGS = [{}, {"default_noreply": False}, {"ignore_exc": True}]
 
 
 def base_case(stack, servers, cfg, label, op, warm, seg):
